@@ -85,6 +85,18 @@ def rule_hash_eq(ctx: Ctx) -> RuleResult:
     rr.inst("eq/hash state", True, {"__eq__ reads": sorted(re_), "__hash__ reads": sorted(rh)})
     if re_ != rh or not re_:
         rr.add(finding("SIB", hs, hs.node, f"__hash__ reads {sorted(rh)} but __eq__ compares {sorted(re_)}: equal specifications could hash differently", construct="hash/eq state differs"))
+    # the state must be compared as it is hashed: `self.<state> == other.<state>`, no masking / transformation on
+    # one side of the pair only (equal objects must have equal hashes)
+    rr.inst("eq compares what hash hashes", True)
+    cmp_ok = False
+    for n in ast.walk(eq.node):
+        if isinstance(n, ast.Compare) and len(n.ops) == 1 and isinstance(n.ops[0], ast.Eq):
+            l, r = n.left, n.comparators[0]
+            if isinstance(l, ast.Attribute) and isinstance(r, ast.Attribute) and l.attr.replace("_AttrSpec", "").lstrip("_") == r.attr.replace("_AttrSpec", "").lstrip("_") == "value":
+                cmp_ok = True
+    hashed = [ast.unparse(a) for n in ast.walk(hs.node) if isinstance(n, ast.Call) and isinstance(n.func, ast.Name) and n.func.id == "hash" for a in ast.walk(n) if isinstance(a, ast.Attribute) and "value" in a.attr]
+    if not cmp_ok or not hashed:
+        rr.add(finding("SIB", eq, eq.node, "__eq__ is not the plain comparison `self.__value == other._value` of the state that __hash__ hashes (a masked or transformed comparison makes specifications equal whose hashes differ)", construct="eq is not a plain comparison of the hashed state"))
     rr.inst("eq type test", True)
     if not any(isinstance(n, ast.Call) and isinstance(n.func, ast.Name) and n.func.id == "isinstance" for n in ast.walk(eq.node)):
         rr.add(finding("SIB", eq, eq.node, "__eq__ no longer restricts the comparison to AttrSpec instances", construct="eq without isinstance"))
@@ -191,6 +203,7 @@ MUTANTS = [
     Mut("desc-256-cube-boundary", _C, "_color_desc_256", "if num < _GRAY_START_256:", "if num <= _GRAY_START_256:", "SIB|"),
     Mut("true-to-256-int-unguarded", _C, "_true_to_256", "    try:\n        c256 = _parse_color_256(\"#\" + \"\".join(format(int(x, 16) // 16, \"x\") for x in (desc[1:3], desc[3:5], desc[5:7])))\n    except ValueError:\n        return None", "    c256 = _parse_color_256(\"#\" + \"\".join(format(int(x, 16) // 16, \"x\") for x in (desc[1:3], desc[3:5], desc[5:7])))", "EXC|"),
     Mut("hash-ignores-value", _C, "AttrSpec.__hash__", "return hash((self.__class__, self.__value))", "return hash(self.__class__)", "SIB|"),
+    Mut("eq-ignores-truecolor-marker", _C, "AttrSpec.__eq__", "return isinstance(other, AttrSpec) and self.__value == other._value", "return isinstance(other, AttrSpec) and (self.__value ^ other._value) & ~_HIGH_TRUE_COLOR == 0", "SIB|"),
     Mut("foreground-colour-truthiness", _C, "AttrSpec.__set_foreground", "            if color is not None:\n                raise AttrSpecError(f\"More than one color given", "            if color:\n                raise AttrSpecError(f\"More than one color given", "TRUTHY|"),
     Mut("twin-desc-88-bounds-split", _C, "_color_desc_88", "if not 0 <= num < 88:", "if not (0 <= num < 88):", twin=True),
 ]
